@@ -912,6 +912,10 @@ def run(ck, fb, tier):
                 rule_v2(ck, prog, S, model)
                 rule_v4(ck, prog, S, model)
         rule_v3(ck, prog, S)
+        from . import c06
+        c06.rule_transport(ck, prog, S, which=(("writeControl", "control"),), rule="C12-V4",
+                           why="the wrapper filters announcements by state of its own, so a rise of MSS that the propagation decided to "
+                               "announce (V4) does not reach the call-back (a second service request with the same status byte is swallowed)")
     ck.trust("spec/esr_classes.json and spec/status_model.json transcribe SCPI-99 21.8 / IEEE 488.2 ch.11 correctly")
     ck.assume("user call-backs (interface->control/error) do not write the registers directly")
 
